@@ -49,6 +49,8 @@ def check(run, replay=None):
     for t in TYPES:
         ops.append({"op": "remote_schema", "ty": t})
         meta.append(("schema", t))
+    ops.append({"op": "remote_schema_multi"})
+    meta.append(("schema_multi",))
     obs = libdiff.run(ops, tag="c20")
     # model
     exprs, eidx = [], []
@@ -104,6 +106,17 @@ def check(run, replay=None):
                 mod = mby[i][0] if mby[i] else "?"
                 if (impl if impl is not None else "<reject>") != mod:
                     run.disagree("Remote decoding", desc, mby[i], impl)
+        elif m[0] == "schema_multi":
+            sch = o.get("schema") or {}
+            defs = sch.get("definitions", {})
+            names = sorted(k for k in defs if k.startswith("Remote"))
+            refs = []
+            for fname, fs in (sch.get("properties") or {}).items():
+                txt = json.dumps(fs)
+                refs += [x.split('"')[0].split("/")[-1] for x in txt.split('"$ref": "')[1:]]
+            desc = {"op": "schema of a struct holding handles with four different type parameters", "definitions": names, "refs": refs}
+            if names != ["Remote"] or any(r != "Remote" for r in refs) or len(refs) < 4:
+                run.oracle_fail("handles with different type parameters are not one schema type `Remote` in a shared document: definitions %s, references %s" % (names, refs), desc)
         else:
             t = m[1]
             schemas[t] = o
